@@ -47,6 +47,10 @@ using N::S1;
 template<class T, int K = 3> struct Tp { T a[K]; };
 template<class A, class B = A> struct Pair { A first; B second; };
 typedef Tp<int> TpInt;
+struct VB0 { int vb; };
+struct VD0 : virtual VB0 { };
+class VD1 : virtual VB0, public virtual Sh { };
+struct VD2 : private virtual VB0, virtual protected Sh { };
 """
 
 BASES = [("int", None), ("unsigned int", None), ("char", None), ("bool", None), ("double", None), ("long long", None), ("unsigned char", None),
@@ -249,8 +253,28 @@ def render(case, off):
         else:
             fn = T("func", ret=t, params=[T("ptr", to=T("base", name="int")), T("base", name=BASES[(i * 5) % 8][0])], ellipsis=False)
             text = spell(fn, name, d["east"]) + ";"
+        twin = None
+        if t.kind == "memfn" and not t.cq and not t.c and not t.v and kind in ("typedef", "var"):
+            # a plain pointer to function of exactly the member function's signature, declared before and after the pointer to
+            # member: function types are shared between declarations, the class must not leak from one into the other
+            tw = T("ptr", to=T("func", ret=t.ret, params=list(t.params), ellipsis=False))
+            spw = spell(tw, "X", True)
+            bw = spw.split("X")[0]
+            okw = re.match(r"^[^()]*\((\w+::)*\*\s*X\)\(", spw) and "const" not in bw and "volatile" not in bw
+            if not (user_base and "(" in bw and not okw):
+                twin = tw
+        if twin is not None:
+            tname = "T_%d" % (1000 + i)
+            ttext = "typedef " + spell(twin, tname, d["east"]) + ";"
+            lines.append(ttext)
+            ents.append({"i": 1000 + i, "kind": "typedef", "name": tname, "text": ttext, "feats": sorted(feats | {"fn_twin"}), "skel": skel + ["twin"]})
         lines.append(text)
         ents.append({"i": i, "kind": kind, "name": name, "text": text, "feats": sorted(feats), "skel": skel})
+        if twin is not None:
+            tname = "T_%d" % (2000 + i)
+            ttext = "typedef " + spell(twin, tname, d["east"]) + ";"
+            lines.append(ttext)
+            ents.append({"i": 2000 + i, "kind": "typedef", "name": tname, "text": ttext, "feats": sorted(feats | {"fn_twin"}), "skel": skel + ["twin"]})
     return "\n".join(lines) + "\n", ents
 
 
